@@ -732,10 +732,13 @@ func genManyRestrictions(r *rng) *Model {
 	group := &Type{Name: "group", Relations: []*Relation{{Name: "member", Expr: &Expr{Kind: KThis}, Direct: []Ref{{Type: "user"}}}}}
 	m.Types = append(m.Types, group)
 	n := []int{40, 63, 64, 65, 70, 100, 130, 200, 300}[r.intn(9)]
+	public := r.chance(35) // most restrictions are public types (T:*)
 	var fill []Ref
 	for i := 0; i < n; i++ {
 		t := &Type{Name: fmt.Sprintf("t%03d", i)}
-		if r.chance(20) {
+		if public && r.chance(90) {
+			fill = append(fill, Ref{Type: t.Name, Wild: true})
+		} else if r.chance(20) {
 			t.Relations = append(t.Relations, &Relation{Name: "member", Expr: &Expr{Kind: KThis}, Direct: []Ref{{Type: "user"}}})
 			fill = append(fill, Ref{Type: t.Name, Rel: "member"})
 		} else {
@@ -777,9 +780,15 @@ func genManyRestrictions(r *rng) *Model {
 	}
 	doc.Relations = append(doc.Relations, &Relation{Name: "owner", Expr: &Expr{Kind: KThis}, Direct: []Ref{{Type: "user"}}})
 	doc.Relations = append(doc.Relations, &Relation{Name: "viewer", Expr: expr, Direct: direct})
-	if r.chance(40) {
-		// a second wide relation, plain
-		doc.Relations = append(doc.Relations, &Relation{Name: "editor", Expr: &Expr{Kind: KThis}, Direct: append([]Ref(nil), fill[:len(fill)/2]...)})
+	if r.chance(40) || public {
+		// a second wide relation, plain, and a relation that reaches the
+		// restrictions of both over two paths
+		cut := len(fill) / 2
+		if r.chance(50) {
+			cut = 0
+		}
+		doc.Relations = append(doc.Relations, &Relation{Name: "editor", Expr: &Expr{Kind: KThis}, Direct: append([]Ref(nil), fill[cut:]...)})
+		doc.Relations = append(doc.Relations, &Relation{Name: "reader", Expr: &Expr{Kind: KUnion, Children: []*Expr{{Kind: KComputed, Rel: "editor"}, {Kind: KComputed, Rel: "viewer"}}}})
 	}
 	m.Types = append(m.Types, doc)
 	return m
@@ -834,6 +843,51 @@ func exprSize(e *Expr) int {
 		n += exprSize(c)
 	}
 	return n
+}
+
+// addRelationlessParent returns a copy of m in which the tupleset of one tuple
+// to userset allows one more parent type, appended at the end, that does not
+// define the computed relation (the builders reject that after having linked
+// the good parents), or nil if m has no tuple to userset.
+func addRelationlessParent(r *rng, m *Model) *Model {
+	c := m.clone()
+	type hit struct {
+		t *Type
+		e *Expr
+	}
+	var hits []hit
+	for _, t := range c.Types {
+		for _, rel := range t.Relations {
+			var rec func(e *Expr)
+			rec = func(e *Expr) {
+				if e == nil {
+					return
+				}
+				if e.Kind == KTTU {
+					hits = append(hits, hit{t, e})
+				}
+				for _, ch := range e.Children {
+					rec(ch)
+				}
+			}
+			rec(rel.Expr)
+		}
+	}
+	if len(hits) == 0 {
+		return nil
+	}
+	h := hits[r.intn(len(hits))]
+	ts := h.t.rel(h.e.Tupleset)
+	if ts == nil {
+		return nil
+	}
+	name := "norel"
+	for c.typeByName(name) != nil {
+		name += "x"
+	}
+	c.Types = append(c.Types, &Type{Name: name})
+	ts.Direct = append(ts.Direct, Ref{Type: name})
+	return c
 }
 
 // injectInterning makes 1-3 relations anywhere in the model repeat the operator
